@@ -6,6 +6,7 @@
 pub mod epoll;
 pub mod eventfd;
 pub mod net;
+pub mod rawsys;
 pub mod world;
 
 pub use world::WouldBlockForever;
